@@ -182,4 +182,7 @@ Next == F2 \/ F3 \/ F4 \/ F5 \/ F6 \/ F7 \/ F7b \/ F8 \/ F8s \/ F9 \/ F9b \/ Use
         \/ W0 \/ W1 \/ W2 \/ H1 \/ H1b \/ H4 \/ H4i \/ H5 \/ H6 \/ H7 \/ H8 \/ H8f \/ H9 \/ P \/ P2 \/ W5 \/ W6
 Spec == Init /\ [][Next]_vars
 Safe == err = "ok"
+\* checked separately, so that a use after free found first does not hide a race (and vice versa)
+SafeUaf == err \notin {"uaf-inc", "uaf-dec", "uaf-deref", "debt-overwritten"}
+SafeRace == err \notin {"race-read-init", "race-destroy-init", "race-destroy-read"}
 ====
